@@ -163,6 +163,10 @@ def handle (toks : List String) : String :=
     let ops := if opsS == "-" then [] else (opsS.splitOn ";").filterMap parseOp
     let r := ops.foldl addStatus base
     (state r).str ++ " " ++ resultsStr r
+  | "reader" :: rest =>
+    -- `Reader::validation_state` with a results object present: the state is derived from
+    -- the results; a serialized/cached `validation_state` field (`stale=`) has no influence
+    (state (parseResults rest)).str
   | "legacy" :: rest =>
     let trust := field rest "trust" == "1"
     let s := field rest "status"
